@@ -163,6 +163,20 @@ CLAIMED = {
         "shape-checked in C13/C19.",
         "DESIGN.md §6 C04",
     ),
+    "C03": (
+        "Lean 4 theorems on the decision logic of is_signed / the validator pipeline over independently computed cryptographic facts + differential correspondence with the real validate_event and add_event on both backends",
+        "Proof: NostrRelay/Props/C03.lean proves that is_signed returns ok only if the id is the hash of the event's own "
+        "serialisation, the signature over that id is valid under the (parsable) pubkey, pubkey/sig are canonical hex and "
+        "every NIP-26 delegation tag is well-formed and validly signed; that the pipeline accepts iff every configured "
+        "validator accepts; hence any pipeline containing is_signed admits only authentic events. Tie: the real "
+        "validate_event verdict (ok / StorageError / other exception) equals the model's on 27 mutation classes of "
+        "genuinely signed events, with the facts computed by hashlib + coincurve directly; search: accepted, stored or "
+        "broadcast on either backend implies authentic, including resubmission of a seen id with a bad signature. All "
+        "admission paths (websocket EVENT, cli load, add_service_event, foaf) end in storage.add_event -> validate_event.",
+        "Trusted: SHA-256 and BIP-340 implementations; the relay's own serialisation (rapidjson) is taken as 'the "
+        "NIP-01 serialisation'; a configuration without is_signed is outside the property's mechanism.",
+        "DESIGN.md §6 C03",
+    ),
 }
 
 NOT_YET = "not reached yet in this round (model/tie not built); see DESIGN.md §10 staging — no weaker technique is substituted"
